@@ -251,7 +251,8 @@ func (c c05) Run(x *Exec, scn any) {
 		present = idsInSinks(x)
 		openAtStop = x.FS.OpenCount()
 		stopReturned = true
-		if s.StopTwice && s.Via == "refresh" {
+		if s.StopTwice && (s.Via == "refresh" || s.Kind == "File" || s.Kind == "Console") {
+			// Destroy is idempotent; file and console appenders tolerate a second Stop
 			stop()
 		}
 	})
